@@ -45,7 +45,7 @@ for pid in R.ALL_IDS:
         n = [f'`{x.name}`' for x in muts if not x.expect]
         out.append(f'*Self-test variants:* B: {", ".join(b) or "-"}; N: {", ".join(n) or "-"}.\n')
     kf = [f for f in known['findings'] if f['property'] == pid and f.get('status') == 'known']
-    fx = [f for f in known.get('fixed', []) if f['property'] == pid]
+    fx = [f for f in known['findings'] if f['property'] == pid and f.get('status') == 'fixed']
     if kf:
         out.append(f'*Known findings on today\'s tree ({len(kf)}; each reproduced, see `reproducer` in known_findings.json):*\n')
         shown = 0
@@ -63,7 +63,9 @@ for pid in R.ALL_IDS:
     else:
         out.append('*Known findings:* none; the check is silent on today\'s tree.\n')
     for f in fx:
-        out.append(f'* fixed: {f["commit"]} {f["what"]}')
+        out.append(f'* {f["record"]}')
+    if fx:
+        out.append('')
     if pid in seeds:
         out.append('*Seeded changes:* ' + '; '.join(
             f'`{n}` ({"caught by " + ", ".join(d["check_result"]["rules_fired"]) if d["check_result"]["violation_reported"] else "MISSED"})'
